@@ -40,6 +40,7 @@ type OpCtx struct {
 
 	arrivals map[string]int
 	noYield  int
+	spins    int // polls of a blocked operation while the library runs goroutines of its own
 }
 
 // CurCtx returns the context of the operation executing on the calling goroutine.
@@ -72,6 +73,9 @@ func cur() *OpCtx {
 }
 
 func hookOrder(site string, n int) []int {
+	if foreign() {
+		return nil
+	}
 	c := cur()
 	if c == nil || c.Key == 0 {
 		return nil
@@ -86,6 +90,9 @@ func hookOrder(site string, n int) []int {
 }
 
 func hookStep(fn string) {
+	if foreign() {
+		return
+	}
 	stepYieldPoint()
 	c := cur()
 	if c == nil {
@@ -109,6 +116,7 @@ func Install() {
 	spec.VerifHooks.Block = hookBlock
 	spec.VerifHooks.Release = hookRelease
 	spec.VerifHooks.NoYield = hookNoYield
+	spec.VerifHooks.Spawn = hookSpawn
 }
 
 // Outcome of running one operation under a context.
@@ -122,10 +130,10 @@ type Outcome struct {
 
 // RunSeq runs f as one operation on the calling goroutine (no scheduler).
 func RunSeq(ctx *OpCtx, f func()) (out Outcome) {
-	prev := seqCur
-	seqCur = ctx
+	prev, prevOwner := seqCur, seqOwner
+	seqCur, seqOwner = ctx, goid()
 	defer func() {
-		seqCur = prev
+		seqCur, seqOwner = prev, prevOwner
 		out.Steps = ctx.Steps
 		if r := recover(); r != nil {
 			classifyPanic(r, &out)
